@@ -5,7 +5,9 @@ from .. import core, tlc
 from .. import graphs as G
 
 INVS = ['CountBound', 'DepthBound', 'CollBound', 'BreadthFirst', 'LocalsFirst', 'CompleteWhenNotCut', 'Closed',
-        'OneIdPerObject', 'TablesAligned', 'WatchClosed', 'WatchDedup', 'WatchBound']
+        'OneIdPerObject', 'TablesAligned', 'WatchClosed', 'WatchDedup', 'WatchBound', 'FramesShareBudget']
+FRAMES2 = dict(n=2, kinds=('int', 'list'), max_child=2, max_roots=2, vars_set=(1, 2, 3, 4), str_set=(2,), coll_set=(2,),
+               depth_set=(2, 3), max_frames=2)
 SMALL = dict(n=2, kinds=('int', 'str', 'list', 'obj'), max_child=2, max_roots=2, vars_set=(1, 2, 3), str_set=(2,),
              coll_set=(1, 2), depth_set=(1, 2, 3))
 MEDIUM = dict(n=3, kinds=('int', 'list', 'dict'), max_child=2, max_roots=2, vars_set=(1, 2, 4), str_set=(2,),
@@ -20,7 +22,7 @@ def mc_cfg(b, pop=False, live=False, invs=INVS):
                                KindsUsed=set(b['kinds']), MaxChild=b['max_child'], MaxRoots=b['max_roots'],
                                VarsSet=set(b['vars_set']), StrSet=set(b['str_set']), CollSet=set(b['coll_set']),
                                DepthSet=set(b['depth_set']), MaxWatch=b.get('max_watch', 0),
-                               WVarsSet=set(b.get('wvars_set', (3,)))),
+                               WVarsSet=set(b.get('wvars_set', (3,))), MaxFrames=b.get('max_frames', 0)),
                 invariants=invs, properties=['NoRepeatDescent'] + (['Terminates'] if live else []), deadlock=False)
 
 
@@ -54,6 +56,39 @@ def run_instances(c, insts, wd, kind, watches=()):
         meta.append({'kind': kind, 'instance': hdr, 'problem': problem,
                      'nvars': len(result['order']) if result else 0})
     return traces, meta, skipped
+
+
+def run_frame_instances(c, insts, wd, kind):
+    """Instances with frames below the paused one (frame_type all_frame): one table, one budget, one identity cache."""
+    runner = G.CollectorRun(wd)
+    traces, meta = [], []
+    skipped = 0
+    for inst in insts:
+        built = G.build(inst)
+        if built is None:
+            skipped += 1
+            continue
+        res, snaps, escaped = runner.run_frames(inst, built)
+        hdr = G.instance_header(inst, built)
+        problem, result = None, None
+        if res != ('ok', 0) or escaped:
+            problem = 'host changed / handler raised: %r %r' % (res, escaped)
+        elif len(snaps) != 1:
+            problem = 'expected 1 snapshot, got %d' % len(snaps)
+        else:
+            try:
+                result = G.project(snaps[0], built, nframes=1 + len(inst['frames']))
+            except ValueError as ex:
+                problem = str(ex)
+        traces.append([hdr, result if result is not None else {'order': [], 'kids': [], 'vlen': [], 'trunc': [], 'wres': []}])
+        meta.append({'kind': kind, 'instance': hdr, 'problem': problem, 'nvars': len(result['order']) if result else 0})
+    return traces, meta, skipped
+
+
+def with_frames(rng, inst):
+    n = len(inst['kind'])
+    inst['frames'] = [[rng.randint(1, n) for _ in range(rng.randint(0, 3))] for _ in range(rng.randint(1, 3))]
+    return inst
 
 
 def validate(c, traces, meta):
@@ -197,6 +232,8 @@ def run(c):
                      'generated classes have deterministic str()']
     c.mc('MC_Collector', mc_cfg(SMALL, live=True), label='all graphs, 2 nodes, liveness', must_cover=['Step'])
     c.mc('MC_Collector', mc_cfg(QUICK3), label='all graphs, 3 nodes, 2 kinds', timeout=1800)
+    c.mc('MC_Collector', mc_cfg(FRAMES2), label='all graphs, 2 nodes, up to 2 frames below the paused one', timeout=1800,
+         must_cover=['FrameBegin', 'FrameStep'])
     if not quick:
         c.mc('MC_Collector', mc_cfg(MEDIUM), label='all graphs, 3 nodes', timeout=1800)
         big = dict(MEDIUM, kinds=('int', 'str', 'list', 'dict', 'obj'), vars_set=(1, 2, 3, 5), depth_set=(1, 2, 3))
@@ -226,10 +263,14 @@ def run(c):
             i['maxVars'] = rng.choice([2, 3, 5])
         traces, meta, sk3 = c07.run_instances_budget(c, insts, wd, 'watches-small-budget', 3)
     validate(c, traces, meta)
+    # the frames below the paused one (frame_type all_frame)
+    fr = [with_frames(rng, G.random_instance(rng, max_nodes=8)) for _ in range(150 if quick else 4000)]
+    traces, meta, sk4 = run_frame_instances(c, fr, wd, 'frames')
+    validate(c, traces, meta)
     # two threads collecting at once, each within its own tracepoint's limits
     traces, meta = concurrent_collections(c, rng, wd, 6 if quick else 80, 25 if quick else 120)
     validate(c, traces, meta)
-    c.extra['instances_not_constructible'] = skipped + sk2 + sk3
+    c.extra['instances_not_constructible'] = skipped + sk2 + sk3 + sk4
 
 
 if __name__ == '__main__':
